@@ -13,10 +13,6 @@
 /* eval_q_nu(x,y,t): production term c_b1 |Omega| rho nu with |Omega| = sqrt(Omega^2); the code has pi*sqrt(w^2/L^2): needs sqrt(pi^2 a) = pi sqrt(a)
  * (z3 proves that lemma alone in 0.1 s and the rest of the identity in seconds, but not together in 200 s). */
 #define CONTRACT_fans_sa_transient_free_shear__eval_q_nu_3      REQ(VF_PI_OK && PI > 0) ENS_EQ(fs_q_nu(x, y, t)) FRAME()
-/* eval_q_rho_u(x,y), eval_q_rho_e(x,y): CBMC 6.11 crashes (simplifier invariant std_expr.cpp:134) when the three-argument body is
- * specialised at the constant t = 0.0; the sibling wrappers eval_q_rho / eval_q_rho_v / eval_q_nu / eval_exact_nu (same one-line body) discharge. */
-#define CONTRACT_fans_sa_transient_free_shear__eval_q_rho_u_2   REQ(1) ENS_EQ(FSC(eval_q_rho_u_3)(x, y, LIT(0, 1))) FRAME()
-#define CONTRACT_fans_sa_transient_free_shear__eval_q_rho_e_2   REQ(1) ENS_EQ(FSC(eval_q_rho_e_3)(x, y, LIT(0, 1))) FRAME()
 #endif
 
 #if defined(UNIT_fans_sa_steady_wall_bounded)
